@@ -1,6 +1,74 @@
 /-
-Helper lemmas for C18.
+Helper lemmas for C18: little and big endian byte encodings and the 80-byte proof layout.
 -/
 import AkdModel.Vrf
 namespace Akd.Vrf
+
+theorem le_succ (k n : Nat) : le (k + 1) n = UInt8.ofNat (n % 256) :: le k (n / 256) := by
+  simp only [le, List.range_succ_eq_map, List.map_cons, List.map_map]
+  congr 1
+  apply List.map_congr_left
+  intro i _
+  simp only [Function.comp, Nat.shiftRight_eq_div_pow]
+  rw [Nat.mul_succ, Nat.pow_add, Nat.div_div_eq_div_mul, Nat.mul_comm]
+
+theorem ofLe_cons (b : UInt8) (bs : Bytes) : ofLe (b :: bs) = b.toNat + 256 * ofLe bs := rfl
+
+theorem ofLe_le (k n : Nat) : ofLe (le k n) = n % 256 ^ k := by
+  induction k generalizing n with
+  | zero => simp [le, ofLe, Nat.mod_one]
+  | succ k ih =>
+    rw [le_succ, ofLe_cons, ih, Nat.pow_succ, Nat.mul_comm (256 ^ k) 256, Nat.mod_mul]
+    simp
+
+theorem le_length (k n : Nat) : (le k n).length = k := by simp [le]
+
+theorem be8_eq (n : Nat) : be8 n = (le 8 n).reverse := by
+  simp [be8, le, List.range, List.range.loop]
+
+theorem be8_length (n : Nat) : (be8 n).length = 8 := by simp [be8]
+
+theorem be8_inj {n m : Nat} (hn : n < 2 ^ 64) (hm : m < 2 ^ 64) (h : be8 n = be8 m) : n = m := by
+  rw [be8_eq, be8_eq, List.reverse_inj] at h
+  have := congrArg ofLe h
+  rw [ofLe_le, ofLe_le] at this
+  rw [Nat.mod_eq_of_lt (by simpa using hn), Nat.mod_eq_of_lt (by simpa using hm)] at this
+  exact this
+
+theorem labelInput_inj {l l' : Bytes} {f f' : Bool} {v v' : Nat}
+    (hl : l.length < 2 ^ 64) (hl' : l'.length < 2 ^ 64) (hv : v < 2 ^ 64) (hv' : v' < 2 ^ 64)
+    (h : labelInput l f v = labelInput l' f' v') : l = l' ∧ f = f' ∧ v = v' := by
+  simp only [labelInput, i2osp, List.append_assoc] at h
+  obtain ⟨h1, h2⟩ := List.append_inj h (by rw [be8_length, be8_length])
+  have hlen := be8_inj hl hl' h1
+  obtain ⟨h3, h4⟩ := List.append_inj h2 hlen
+  simp only [List.cons_append, List.nil_append, List.cons.injEq] at h4
+  refine ⟨h3, ?_, be8_inj hv hv' h4.2⟩
+  have h5 := h4.1
+  cases f <;> cases f' <;> first | rfl | (exact absurd h5 (by decide))
+
+theorem ell_lt : ell < 2 ^ 253 := by decide
+theorem two_ell_lt : ell + ell < 256 ^ 32 := by decide
+theorem c_lt_ell {c : Nat} (h : c < 2 ^ 128) : c < ell :=
+  Nat.lt_trans h (by decide)
+
+/-- decoding `gamma ‖ le 16 c ‖ le 32 s'` -/
+theorem decodeProof_parts (g : Bytes) (c s' : Nat) (hg : g.length = 32) :
+    decodeProof (g ++ le 16 c ++ le 32 s') = some ⟨g, (c % 256 ^ 16) % ell, (s' % 256 ^ 32) % ell⟩ := by
+  have hlen : (g ++ le 16 c ++ le 32 s').length = 80 := by
+    simp [List.length_append, le_length, hg]
+  have h1 : (g ++ le 16 c ++ le 32 s').take 32 = g := by
+    rw [List.append_assoc, List.take_append_of_le_length (by omega), ← hg, List.take_length]
+  have h2 : (g ++ le 16 c ++ le 32 s').drop 32 = le 16 c ++ le 32 s' := by
+    rw [List.append_assoc, ← hg, List.drop_left]
+  have h3 : (le 16 c ++ le 32 s').take 16 = le 16 c := by
+    rw [List.take_append_of_le_length (by rw [le_length]; omega)]
+    conv => lhs; arg 1; rw [← le_length 16 c]
+    exact List.take_length
+  have h4 : (g ++ le 16 c ++ le 32 s').drop 48 = le 32 s' := by
+    have : (g ++ le 16 c).length = 48 := by simp [le_length, hg]
+    rw [← this, List.drop_left]
+  unfold decodeProof
+  rw [if_neg (by rw [hlen]; simp), h1, h4, h2, h3, ofLe_le, ofLe_le]
+
 end Akd.Vrf
